@@ -137,6 +137,21 @@ def dispose (m : M) (s : Nat) : M :=
     scopes := m.scopes.mapIdx fun i sc => if dead i then { sc with alive := false } else sc,
     tasks := m.tasks.map fun tk => if tk.status == .pending && dead tk.scope then { tk with status := .aborted } else tk }
 
+/-- the next await point of task `t` completes and its body, when it resumes, disposes the scope the task was spawned
+in (never the root scope): the task is aborted while it is being polled. The body runs on to its next await point (or
+to its end); then the task is finished or, with await points left, aborted like every other task of that scope -/
+def completeX (m : M) (t : Nat) : M :=
+  match m.tasks[t]? with
+  | none => m
+  | some tk =>
+    if tk.status != .pending || tk.awaits = 0 then m else
+    if tk.scope = 0 then complete m t else
+    let left := tk.awaits - 1
+    let m := dispose { m with polls := m.polls ++ [(t, left)] } tk.scope
+    if left = 0 then
+      dropGuard { m with tasks := m.tasks.modify t fun x => { x with awaits := 0, status := .done } } tk.boundary
+    else { m with tasks := m.tasks.modify t fun x => { x with awaits := left } }
+
 /-- one executor turn: every aborted task is dropped (its guard with it), in task order -/
 def drainFrom (m : M) : Nat → Nat → M
   | 0, _ => m
@@ -168,6 +183,11 @@ inductive Ev where
 
 def step (m : M) : Ev → M
   | .complete t => drain (complete m t)
+  | .dispose s => drain (dispose m s)
+
+/-- `step` for a machine in which the tasks listed in `xs` dispose their own scope when they first resume -/
+def stepX (xs : List Nat) (m : M) : Ev → M
+  | .complete t => if xs.contains t then drain (completeX m t) else drain (complete m t)
   | .dispose s => drain (dispose m s)
 
 /-! ### resources (`create_isomorphic_resource(on(dep, fetch))`) -/
